@@ -11,9 +11,10 @@ _MODS = ["Astria.Ledger.Model", "Astria.Ledger.Conservation", "Astria.Ledger.The
 PROPS = {
     "C02": {
         "level": "proof",
-        "lean_modules": _MODS + ["Astria.Properties.C02"],
+        "lean_modules": _MODS + ["Astria.Ledger.Privileged", "Astria.Properties.C02"],
         "theorems": ["Astria.C02_debit_authorised", "Astria.C02_priv_authorised", "Astria.C02_init_bridge_authorised",
-                     "Astria.C02_bridge_source_guard"],
+                     "Astria.C02_bridge_source_guard", "Astria.C02_priv_change_authorised",
+                     "Astria.C02_tx_priv_change_authorised", "Astria.C02_packets_change_no_privileged_state"],
         "harnesses": ["ledger"],
         "monitors": ["debit_authorised", "priv_authorised", "dump_parse"],
         "scope_regex": r"^ledger (tx|ctor|exec) ",
@@ -21,16 +22,18 @@ PROPS = {
         "rule": _RULE + ". non-trivial = a successful transaction (its balance decreases and privileged-state changes are attributed to the signer / pre-state authorities)",
         "trusted_base": _TRUSTED + ["the ed25519 signature check of Transaction::try_from_raw (the signer of a transaction is the address of the verified key) is exercised but not modelled"],
         "assumptions": _ASSUME + [
-            "theorem side for privileged state: executing a privileged action kind requires the signature of the authority in force; that no "
-            "OTHER action kind changes privileged state is established by the correspondence (full state dump) and the priv_authorised monitor, not by a theorem"],
-        "explanation": "theorems: balance decrease => signer or current withdrawer; privileged action => authority in force; monitors attribute every "
+            "theorem side for privileged state, both directions: a privileged action kind executes only under the signature of the authority in force "
+            "(C02_priv_authorised), and whatever executes, a privileged component that differs afterwards implies that the signer held it "
+            "(C02_priv_change_authorised per action, C02_tx_priv_change_authorised per transaction, packets change none)"],
+        "explanation": "theorems: balance decrease => signer or current withdrawer; privileged action => authority in force; privileged component changed => signer held it; monitors attribute every "
                        "observed decrease / privileged change to the signer and the pre-state authorities",
     },
     "C04": {
         "level": "proof",
-        "lean_modules": _MODS + ["Astria.Properties.C04"],
+        "lean_modules": _MODS + ["Astria.Ledger.Escrow", "Astria.Ledger.Withdrawals", "Astria.Properties.C04"],
         "theorems": ["Astria.C04_deposit_backed", "Astria.C04_deposit_asset", "Astria.C04_recv_deposit_backed", "Astria.C04_refund_deposit_backed", "Astria.C04_no_orphan_deposit",
-                     "Astria.C04_withdrawal_once", "Astria.C04_withdrawal_recorded_forever", "Astria.C04_replayed_withdrawal_rejected"],
+                     "Astria.C04_withdrawal_once", "Astria.C04_withdrawal_recorded_forever", "Astria.C04_replayed_withdrawal_rejected",
+                     "Astria.C04_withdrawal_once_history", "Astria.C04_recorded_withdrawal_never_honoured"],
         "harnesses": ["ledger"],
         "monitors": ["deposit_backed", "withdrawal_once", "recv_all_or_nothing", "failed_tx_no_effect", "dump_parse"],
         "scope_regex": r"^ledger ",
@@ -72,14 +75,14 @@ TEXT = {
                 "generated transactions from all signers (including former authorities and bridge accounts) and attributes every observed balance "
                 "decrease and privileged-state change to the signer and the pre-state authorities.",
         "design_ref": "DESIGN.md §6 C02",
-        "note": "Trusted: Lean kernel, hand-written model, harness/driver. Frame direction for privileged state (no other action changes it) rests on the "
-                "correspondence + monitor, not a theorem.",
+        "note": "Trusted: Lean kernel, hand-written model, harness/driver. Both directions for privileged state are theorems (a privileged action needs the "
+                "holder's signature; a changed privileged component implies the signer held it), and are evaluated by the priv_authorised monitor on the implementation's dumps.",
         "technique": "Lean 4 proof (effect-list analysis per action kind) + differential correspondence on full state dumps",
     },
     "C04": {
         "text": "Lean 4 theorems: every Deposit is emitted in the same atomic effect list as an equal credit of the named bridge account in that bridge's "
                 "asset and rollup; failed transactions and error-acknowledged packets publish nothing; an action carrying a withdrawal event id executes "
-                "only if the id is unrecorded for that bridge and records it, and nothing un-records it. Every run checks deposits against bridge "
+                "only if the id is unrecorded for that bridge and records it, and nothing un-records it; by induction over arbitrary histories of transactions, packets and block ends a (bridge, event id) is honoured at most once in total (C04_withdrawal_once_history). Every run checks deposits against bridge "
                 "balance deltas per op and per block, and rejects a second honoured carrier of any (bridge, id) over the whole history.",
         "design_ref": "DESIGN.md §6 C04",
         "note": "Trusted: Lean kernel, hand-written model, harness/driver. One genuine defect repaired (orphan deposit of a failed receive, fix: 5215c1f).",
